@@ -331,7 +331,146 @@ void World::CheckRsp(const InvRecord& r) {
   }
 }
 
-void World::CheckOutput(const InvRecord& r) { (void)r; }
+// ------------------------------------------------------------------ C20
+static std::string StripAnsi(const std::string& in) {
+  std::string s;
+  for (size_t i = 0; i < in.size(); ++i) {
+    if (in[i] != '\33') { s.push_back(in[i]); continue; }
+    if (i + 1 >= in.size()) break;
+    if (in[i + 1] != '[') continue;
+    i += 2;
+    while (i < in.size() && !((in[i] >= 'a' && in[i] <= 'z') || (in[i] >= 'A' && in[i] <= 'Z'))) ++i;
+  }
+  return s;
+}
+
+static bool EndsWith(const std::string& s, size_t end, const std::string& suffix) {
+  return end >= suffix.size() && s.compare(end - suffix.size(), suffix.size(), suffix) == 0;
+}
+
+void World::CheckOutput(const InvRecord& r) {
+  if (r.plan.dry || !r.plan.tool.empty()) return;
+  if (r.res.end != ProcResult::kExit) return;           // a killed ninja prints what it got to
+  if (IoFault(r)) return;
+  const std::string& T = r.res.out;
+  bool smart = r.plan.tty && !r.plan.verbose && !r.plan.quiet;
+  bool color = r.plan.tty;   // colour support is decided from the terminal alone, whatever the verbosity
+  bool interrupted = r.interrupted && (T.find("interrupted by user") != std::string::npos || r.res.err.find("interrupted by user") != std::string::npos);
+  bool died_by_signal = r.res.fired.count("killed_by_default_action") > 0;
+  if (died_by_signal) return;
+  long checked = 0;
+  bool concurrent_output = false;
+  for (const SpawnRec& x : r.spawns) {
+    const Stmt& s = sc.stmts[x.stmt];
+    if (x.console || s.deps_kind == 3) continue;
+    if (!x.reap_seq || x.killed) continue;                // interrupted commands are not reported
+    if (interrupted && MapStatus(x.reap_status) == 130) continue;
+    if (x.output.empty()) continue;
+    std::string want = color || x.output.find('\33') == std::string::npos ? x.output : StripAnsi(x.output);
+    // a command that was reaped but whose completion ninja never processed (it
+    // stopped for an interrupt first) is not reported either
+    size_t pos = T.find(want);
+    if (pos == std::string::npos) {
+      if (interrupted) continue;
+      // every tag must still be there exactly once: distinguish lost from interleaved
+      std::string tag = want.substr(0, want.find(">>") + 2);
+      if (T.find(tag) == std::string::npos)
+        Report("C20", "output_lost_or_dup", "the output of statement " + S(x.stmt) + " (" + tag + ") does not appear on ninja's stdout");
+      else
+        Report("C20", "output_interleaved", "the output of statement " + S(x.stmt) + " (" + tag + ") is not shown as one contiguous block");
+      continue;
+    }
+    if (T.find(want, pos + 1) != std::string::npos)
+      Report("C20", "output_lost_or_dup", "the output of statement " + S(x.stmt) + " is shown more than once");
+    checked++;
+    for (const SpawnRec& y : r.spawns) if (&y != &x && y.seq < x.reap_seq && (y.reap_seq == 0 || y.reap_seq > x.seq) && !y.output.empty()) concurrent_output = true;
+    if (smart) continue;
+    // directly after its own status line / failure header
+    size_t before = pos;
+    if (before > 0 && T[before - 1] == '\n' && before > 1 && T[before - 2] == '\n') before--;   // tolerated: a newline owed to the previous block
+    std::string desc = (s.description && !r.plan.verbose) ? "D" + S(s.id) + " " + [&]() { std::string o; for (auto& p : s.outs) { if (!o.empty()) o += ' '; o += ShellEscape(p); } return o; }() : x.cmd;
+    if (x.reap_status != 0) {
+      std::string outs;
+      for (auto& p : x.outs) outs += p + " ";
+      std::string failed = "FAILED: [code=" + S(MapStatus(x.reap_status)) + "] ";
+      if (color) failed = "\x1B[31m" + failed + "\x1B[0m";
+      std::string hdr = failed + outs + "\n" + x.cmd + "\n";
+      if (!EndsWith(T, before, hdr))
+        Report("C20", "output_interleaved", "the output of failed statement " + S(x.stmt) + " is not directly preceded by its FAILED header and command line");
+      else stats->n["failed_blocks_checked"]++;
+    } else if (!r.plan.quiet) {
+      if (!EndsWith(T, before, desc + "\n"))
+        Report("C20", "output_interleaved", "the output of statement " + S(x.stmt) + " does not directly follow its own status line");
+    }
+  }
+  stats->n["output_blocks_checked"] += checked;
+  if (checked && concurrent_output) stats->nontrivial["C20"] = true;
+
+  // ---- counters
+  if (r.plan.quiet) return;
+  if (smart && r.plan.cols < 80) return;   // a narrow terminal elides the middle of the line, counters included
+  int last_s = -1, last_f = -1, last_t = -1;
+  size_t i = 0;
+  long lines = 0;
+  while ((i = T.find('[', i)) != std::string::npos) {
+    int a = 0, b = 0, c = 0, d = 0, nn = 0;
+    if (r.plan.status_mode == 0) {
+      if (sscanf(T.c_str() + i, "[%d/%d] %n", &a, &b, &nn) >= 2 && nn > 0) {
+        bool at_line_start = i == 0 || T[i - 1] == '\n' || T[i - 1] == '\r' || T[i - 1] == 'K' || T[i - 1] == '>' || true;
+        if (at_line_start) {
+          if (a > b) Report("C20", "counter_inconsistent", "a status line shows " + S(a) + " finished of " + S(b) + " total");
+          last_f = a; last_t = b; lines++;
+        }
+      }
+    } else if (sscanf(T.c_str() + i, "[%d/%d/%d/%d] %n", &a, &b, &c, &d, &nn) >= 4 && nn > 0) {
+      if (b > c) Report("C20", "counter_inconsistent", "a status line shows " + S(b) + " finished of " + S(c) + " total");
+      if (b > a) Report("C20", "counter_inconsistent", "a status line shows " + S(b) + " finished but only " + S(a) + " started");
+      if (a > c) Report("C20", "counter_inconsistent", "a status line shows " + S(a) + " started of " + S(c) + " total");
+      last_s = a; last_f = b; last_t = c; lines++;
+    }
+    i++;
+  }
+  stats->n["status_lines_parsed"] += lines;
+  bool any_console = false;
+  for (const SpawnRec& x : r.spawns) if (x.console) any_console = true;
+  if (any_console) stats->nontrivial["C20"] = true;
+  // a console command's status line is printed when it starts, not when it
+  // finishes; the last printed line then predates the last completion
+  const SpawnRec* last_done = nullptr;
+  for (const SpawnRec& x : r.spawns) if (x.reap_seq && (!last_done || x.reap_seq > last_done->reap_seq)) last_done = &x;
+  bool last_is_console = last_done && last_done->console;
+  if (last_is_console) return;
+  // likewise the line of a restat command is printed before the pruning it
+  // causes lowers the total
+  if (last_done) {
+    const Stmt& ls = sc.stmts[last_done->stmt];
+    const DyndepEntry* le = sc.DyndepFor(ls.id);
+    if (ls.restat || (le && le->restat)) return;
+  }
+  if (lines && r.ok() && !interrupted && r.epochs >= 1) {
+    if (last_f != last_t)
+      Report("C20", "counter_inconsistent", "a successful build ended with " + S(last_f) + " finished of " + S(last_t) + " total");
+    if (last_s >= 0 && last_s != last_f)
+      Report("C20", "counter_inconsistent", "a successful build ended with " + S(last_s) + " started but " + S(last_f) + " finished");
+  }
+  if (lines && NormalExit(r) && !interrupted && last_s >= 0 && last_s != last_f && !r.ok()) {
+    // every started command is also reported finished, also when the build fails
+    bool all_reaped = true;
+    for (const SpawnRec& x : r.spawns) if (!x.reap_seq) all_reaped = false;
+    if (all_reaped && r.epochs <= 1)
+      Report("C20", "counter_inconsistent", "the last status line of a failed build shows " + S(last_s) + " started but " + S(last_f) + " finished");
+  }
+  // ---- console: nothing is printed while a console command owns the terminal
+  for (const SpawnRec& x : r.spawns) {
+    if (!x.console || !x.reap_seq) continue;
+    for (const Ev& e : r.res.trace)
+      if (e.kind == Ev::kStdout && e.seq > x.seq && e.seq < x.reap_seq && x.exit_seq && e.seq < x.exit_seq) {
+        Report("C20", "output_interleaved", "ninja printed to the terminal while console statement " + S(x.stmt) + " owned it: " + e.s.substr(0, 60));
+        break;
+      }
+    stats->n["console_periods_checked"]++;
+  }
+}
 
 void World::CheckAll(InvRecord& r) {
   CheckTermination(r);
